@@ -319,7 +319,13 @@ func (t *Frontend) handleRequest(r Request, w ResponseWriter) (actionName string
 
 		WriteAnnounce(w, txID, resp, actionID == announceV6ActionID, req.IP.AddressFamily == bittorrent.IPv6)
 
-		go t.logic.AfterAnnounce(ctx, req, resp)
+		// The post-response hooks still belong to this request: Stop waits for
+		// them too.
+		t.wg.Add(1)
+		go func() {
+			defer t.wg.Done()
+			t.logic.AfterAnnounce(ctx, req, resp)
+		}()
 
 	case scrapeActionID:
 		actionName = "scrape"
@@ -352,7 +358,11 @@ func (t *Frontend) handleRequest(r Request, w ResponseWriter) (actionName string
 
 		WriteScrape(w, txID, resp)
 
-		go t.logic.AfterScrape(ctx, req, resp)
+		t.wg.Add(1)
+		go func() {
+			defer t.wg.Done()
+			t.logic.AfterScrape(ctx, req, resp)
+		}()
 
 	default:
 		err = errUnknownAction
